@@ -390,6 +390,26 @@ class _Expr(ast.NodeTransformer):
             return ast.Dict(keys=[ast.Constant(value=k.arg) for k in node.keywords], values=[k.value for k in node.keywords])
         return node
 
+    def visit_Lambda(self, node):
+        self.generic_visit(node)
+        a = node.args
+        if not (a.vararg or a.kwarg or a.kwonlyargs or a.defaults or a.posonlyargs) and isinstance(node.body, ast.Call) \
+                and isinstance(node.body.func, ast.Name) and not node.body.keywords \
+                and [x.arg for x in a.args] == [x.id if isinstance(x, ast.Name) else None for x in node.body.args] \
+                and node.body.func.id not in [x.arg for x in a.args]:
+            return node.body.func
+        return node
+
+    def visit_ListComp(self, node):
+        self.generic_visit(node)
+        if len(node.generators) == 1 and not node.generators[0].ifs and isinstance(node.elt, (ast.Name, ast.Constant)):
+            g = node.generators[0]
+            tn = {n.id for n in ast.walk(g.target) if isinstance(n, ast.Name)}
+            if isinstance(g.iter, ast.Call) and isinstance(g.iter.func, ast.Name) and g.iter.func.id in ("range", "xrange") \
+                    and len(g.iter.args) == 1 and not (isinstance(node.elt, ast.Name) and node.elt.id in tn):
+                return ast.BinOp(left=ast.List(elts=[node.elt], ctx=ast.Load()), op=ast.Mult(), right=g.iter.args[0])
+        return node
+
     def visit_IfExp(self, node):
         node.test = self._truth(node.test)
         self.generic_visit(node)
@@ -649,16 +669,86 @@ def _norm_simple(stmts, ctx):
                     changed = True
                     i += 1
                     continue
-            # for x in seq: x = f(x); ...   ->   for x in map(f, seq): ...
-            if isinstance(st, ast.For) and isinstance(st.target, ast.Name) and st.body:
-                b0 = st.body[0]
-                if isinstance(b0, ast.Assign) and len(b0.targets) == 1 and isinstance(b0.targets[0], ast.Name) \
-                        and b0.targets[0].id == st.target.id and isinstance(b0.value, ast.Call) \
-                        and isinstance(b0.value.func, ast.Name) and len(b0.value.args) == 1 and not b0.value.keywords \
-                        and isinstance(b0.value.args[0], ast.Name) and b0.value.args[0].id == st.target.id:
-                    st.iter = ast.Call(func=ast.Name(id="map", ctx=ast.Load()), args=[b0.value.func, st.iter], keywords=[])
-                    st.body = st.body[1:] or [ast.Pass()]
+            # for x in map(f, S): BODY   ->   for x in S: x = f(x); BODY        (lazy map: same interleaving)
+            if isinstance(st, ast.For) and isinstance(st.target, ast.Name) and isinstance(st.iter, ast.Call) \
+                    and isinstance(st.iter.func, ast.Name) and st.iter.func.id in ("map", "xmap") and len(st.iter.args) == 2 \
+                    and not st.iter.keywords and isinstance(st.iter.args[0], (ast.Name, ast.Lambda, ast.Attribute)) \
+                    and not ctx.get("final"):
+                f_, seq_ = st.iter.args
+                t = st.target.id
+                st.iter = seq_
+                call = ast.Call(func=f_, args=[ast.Name(id=t, ctx=ast.Load())], keywords=[])
+                st.body = [ast.Assign(targets=[ast.Name(id=t, ctx=ast.Store())], value=call, lineno=st.lineno, col_offset=0)] \
+                    + list(st.body)
+                changed = True
+            # L = []; for x in S: L.append(E)   ->   L = [E for x in S]
+            if isinstance(st, ast.Assign) and len(st.targets) == 1 and isinstance(st.targets[0], ast.Name) \
+                    and isinstance(st.value, ast.List) and not st.value.elts and isinstance(nxt, ast.For) \
+                    and not nxt.orelse and len(nxt.body) == 1 and isinstance(nxt.body[0], ast.Expr) \
+                    and isinstance(nxt.body[0].value, ast.Call) and isinstance(nxt.body[0].value.func, ast.Attribute) \
+                    and nxt.body[0].value.func.attr == "append" and isinstance(nxt.body[0].value.func.value, ast.Name) \
+                    and nxt.body[0].value.func.value.id == st.targets[0].id and len(nxt.body[0].value.args) == 1 \
+                    and not ctx.get("final"):
+                L = st.targets[0].id
+                E = nxt.body[0].value.args[0]
+                tnames = {n.id for n in ast.walk(nxt.target) if isinstance(n, ast.Name)}
+                later_use = any(n.id in tnames for s_ in stmts[i + 2:] for n in _names(s_))
+                if not _count_loads(E, L) and not _count_loads(nxt.iter, L) and not later_use \
+                        and not any(isinstance(n, (ast.Yield, ast.YieldFrom)) for n in ast.walk(nxt)):
+                    comp = ast.ListComp(elt=E, generators=[ast.comprehension(target=nxt.target, iter=nxt.iter, ifs=[], is_async=0)])
+                    out.append(ast.Assign(targets=st.targets, value=comp, lineno=st.lineno, col_offset=0))
                     changed = True
+                    i += 2
+                    continue
+            # x = E ; while x: BODY ; x = E      ->   while True: x = E; if not x: break; BODY     (BODY has no continue)
+            if isinstance(st, ast.Assign) and len(st.targets) == 1 and isinstance(st.targets[0], ast.Name) \
+                    and isinstance(nxt, ast.While) and isinstance(nxt.test, ast.Name) and nxt.test.id == st.targets[0].id \
+                    and not nxt.orelse and len(nxt.body) >= 2 and isinstance(nxt.body[-1], ast.Assign) \
+                    and ast.dump(nxt.body[-1]) == ast.dump(st) and not ctx.get("final") \
+                    and not any(isinstance(n, ast.Continue) for b_ in nxt.body for n in ast.walk(b_)):
+                x = st.targets[0].id
+                body = [st, ast.If(test=ast.UnaryOp(op=ast.Not(), operand=ast.Name(id=x, ctx=ast.Load())),
+                                   body=[ast.Break(lineno=st.lineno, col_offset=0)], orelse=[], lineno=st.lineno, col_offset=0)] \
+                    + list(nxt.body[:-1])
+                out.append(ast.While(test=ast.Constant(value=True), body=body, orelse=[], lineno=nxt.lineno, col_offset=0))
+                changed = True
+                i += 2
+                continue
+            # for x in S: if not P: return False ; return True    ->   return all(P for x in S)      (and the any() twin)
+            if isinstance(st, ast.For) and not st.orelse and len(st.body) == 1 and isinstance(st.body[0], ast.If) \
+                    and not st.body[0].orelse and len(st.body[0].body) == 1 and isinstance(st.body[0].body[0], ast.Return) \
+                    and isinstance(st.body[0].body[0].value, ast.Constant) and type(st.body[0].body[0].value.value) is bool \
+                    and isinstance(nxt, ast.Return) and isinstance(nxt.value, ast.Constant) and type(nxt.value.value) is bool \
+                    and nxt.value.value != st.body[0].body[0].value.value and not ctx.get("final"):
+                inner = st.body[0]
+                if nxt.value.value is True:
+                    pred, fn_ = _neg_test(inner.test), "all"
+                else:
+                    pred, fn_ = inner.test, "any"
+                gen = ast.GeneratorExp(elt=pred, generators=[ast.comprehension(target=st.target, iter=st.iter, ifs=[], is_async=0)])
+                out.append(ast.Return(value=ast.Call(func=ast.Name(id=fn_, ctx=ast.Load()), args=[gen], keywords=[]),
+                                      lineno=st.lineno, col_offset=0))
+                changed = True
+                i += 2
+                continue
+            # x /= y  ->  x = x / y     (no class of the package defines an in-place division)
+            if isinstance(st, ast.AugAssign) and isinstance(st.op, ast.Div) and isinstance(st.target, ast.Name) \
+                    and not ctx.get("final"):
+                out.append(ast.Assign(targets=[ast.Name(id=st.target.id, ctx=ast.Store())],
+                                      value=ast.BinOp(left=ast.Name(id=st.target.id, ctx=ast.Load()), op=ast.Div(), right=st.value),
+                                      lineno=st.lineno, col_offset=0))
+                changed = True
+                i += 1
+                continue
+            # x += [E]  ->  x.append(E)
+            if isinstance(st, ast.AugAssign) and isinstance(st.op, ast.Add) and isinstance(st.target, ast.Name) \
+                    and isinstance(st.value, ast.List) and len(st.value.elts) == 1 and not isinstance(st.value.elts[0], ast.Starred):
+                out.append(ast.Expr(value=ast.Call(func=ast.Attribute(value=ast.Name(id=st.target.id, ctx=ast.Load()), attr="append",
+                                                                      ctx=ast.Load()), args=[st.value.elts[0]], keywords=[]),
+                                    lineno=st.lineno, col_offset=0))
+                changed = True
+                i += 1
+                continue
             if isinstance(st, ast.Assign) and len(st.targets) == 1 and isinstance(st.targets[0], ast.Name) and nxt is not None \
                     and not ctx.get("final"):
                 v = st.targets[0].id
@@ -799,6 +889,15 @@ def _norm_region(stmts, kind, ctx):
         else:
             out.append(st)
     stmts = out
+    # try: BODY except ..(all leave)  ;  return <literal or name>     ->   the return moves to the end of BODY
+    for i, st in enumerate(stmts):
+        if isinstance(st, ast.Try) and not st.orelse and not st.finalbody and st.handlers \
+                and all(_always_leaves(h.body) for h in st.handlers) and i + 1 < len(stmts) \
+                and isinstance(stmts[i + 1], ast.Return) and (stmts[i + 1].value is None or isinstance(
+                    stmts[i + 1].value, (ast.Constant, ast.Name))) and not _always_leaves(st.body):
+            st.body = list(st.body) + [stmts[i + 1]]
+            stmts = stmts[:i + 1] + stmts[i + 2:]
+            break
     # a short tail that always leaves, after an if/else whose arms both fall through, is copied into both arms
     for i, st in enumerate(stmts):
         if isinstance(st, ast.If) and st.orelse and not _always_leaves(st.body) and not _always_leaves(st.orelse):
@@ -1479,6 +1578,14 @@ def canonical_ast(fn, helpers, methods=None, hier=None):
                                            "bound": frozenset(_bound(f)) | params})
     f.body = _dt_pass(f.body, hier or {})
     return f
+
+
+def same_function(fa, fb):
+    """True when the two function definitions are equal modulo the rewrites of this module"""
+    try:
+        return canonical(fa, {}, {}, {}) == canonical(fb, {}, {}, {})
+    except (RecursionError, Inconclusive, SyntaxError):
+        return False
 
 
 def lambda_to_def(assign):
